@@ -33,6 +33,9 @@ def _flav(tier):
         mdp_specs("discounted", max_states=6 if big else 5, p0_zero_entries=True),
         mdp_specs("negative", max_states=6 if big else 5, p0_zero_entries=True),
         mdp_specs("discounted", max_states=7 if big else 5, max_actions=2),
+        # long chains: reachability of absorbing states over paths of 5-7 transitions
+        mdp_specs("negative", min_states=5, max_states=8 if big else 7, max_actions=2, p0_zero_entries=True,
+                  absorbing_kinds=("n", "n", "n", "n", "n", "n", "n", "abs")),
     )
 
 
@@ -167,10 +170,13 @@ def check_result(ctx, spec, cfg, res, mdp, view, name, refpack=None, pfx="C01"):
         return  # malformed policy already reported above
     pi = pi / pi.sum(1, keepdims=True)
     vmax = max([abs(v) for s, v in V.items() if not zero[s] and math.isfinite(v)] + [0.0])
-    delta = 0.0 if exact else (1e-5 * vmax + 1e-8)
+    # greedy sets are decided with np.isclose (rtol 1e-5, atol 1e-8) by every solver, policy iteration included:
+    # an action within that band of the maximum may be mixed in ("numerical near-ties aside")
+    delta = 1e-5 * vmax + 1e-8
     if gamma < 1.0:
         H = np.full(n, 1.0 / (1.0 - gamma))
-        delta = 0.0  # ||V_k - V*|| <= residual/(1-gamma) needs no tie allowance
+        if not exact:
+            delta = 0.0  # value iteration: ||V_k - V*|| <= residual/(1-gamma) needs no tie allowance
     else:
         H = ref.expected_steps(pi, zero=zero)
     bound = (residual + delta) * H + TOL * (1 + vmax)
@@ -367,11 +373,11 @@ def batch_cases(draw, tier="quick"):
 
 
 PROPS = [
-    Prop("vi_vec", strat("vi_vec"), prop_solver, quick=700, thorough=20000,
+    Prop("vi_vec", strat("vi_vec"), prop_solver, quick=1400, thorough=20000,
          doc="vectorised value iteration vs policy-enumeration oracle"),
-    Prop("vi_dict", strat("vi_dict"), prop_solver, quick=300, thorough=6000,
+    Prop("vi_dict", strat("vi_dict"), prop_solver, quick=500, thorough=6000,
          doc="dict value iteration vs policy-enumeration oracle"),
-    Prop("pi", strat("pi"), prop_solver, quick=600, thorough=20000,
+    Prop("pi", strat("pi"), prop_solver, quick=1200, thorough=20000,
          doc="policy iteration (plan_on) vs policy-enumeration oracle"),
     Prop("vi_diff", strat("vi_vec"), prop_vi_diff, quick=200, thorough=4000,
          doc="vectorised vs dict value iteration differential"),
